@@ -52,7 +52,7 @@ def snap(x):
 class Obj(object):
     """A message object taking part in a history, with what it looked like when it entered."""
 
-    def __init__(self, st, oid, m, fields, interner, kind, origin=None, reencodable=True):
+    def __init__(self, st, oid, m, fields, interner, kind, origin=None, reencodable=True, reenc0=None):
         p = P()
         self.oid, self.m, self.fields, self.kind, self.origin = oid, m, fields, kind, origin
         self.rows0 = copy.deepcopy(m.template_data.value.decoded_values_all_subsets)
@@ -63,14 +63,10 @@ class Obj(object):
         self.bytes0 = m.serialized_bytes
         self.render0 = p.render_hash(st, m)
         self.mm = p.msg_for_model(m, interner)
-        self.reenc0 = None
+        # the re-encoding of the object when it entered the history (given, or taken at the first `reencode` operation):
+        # what every later re-encoding is compared with
+        self.reenc0 = reenc0
         self.reencodable = reencodable
-        if reencodable:
-            # the re-encoding of the object as it enters the history: what every later re-encoding is compared with
-            try:
-                self.reenc0 = st['enc'].process(st['render'].render(m), wire_template_data=False).serialized_bytes
-            except Exception:
-                self.reencodable = False
         self.calls = []         # (rid or None, indices, what) sent to the model for this object
         self.pos = {}
         for si, section in enumerate(m.sections):
@@ -134,6 +130,8 @@ def pick_collections(rng, n, tier):
 
 def plan(rng, n, tier):
     """A history for a message of n >= 1 subsets (deterministic in rng)."""
+    quick = tier == 'quick'
+    max_derived = 1 if quick else 2
     ok, bad = pick_collections(rng, n, tier)
     ops = []
     nxt = {'rid': 0, 'oid': 1}
@@ -163,18 +161,18 @@ def plan(rng, n, tier):
     if rng.random() < 0.8:
         seq.append(rng.choice(bad))
     seq.append(b)
-    if rng.random() < 0.7:
+    if rng.random() < 0.65:
         seq.append(list(a))                     # an equal collection again, after the object was subset differently
-    if rng.random() < 0.5:
+    if rng.random() < (0.3 if quick else 0.5):
         seq.append(rng.choice(ok))
     if rng.random() < 0.3:
         seq.insert(rng.randrange(1, len(seq)), rng.choice(bad))
     if rng.random() < 0.5:
-        source()
+        source(0, 'render')
     for k, I in enumerate(seq):
         call(0, I)
         if rng.random() < 0.2:
-            source()
+            source(0, 'render' if rng.random() < 0.7 else 'reencode')
     # phase 2: consume in another order, more extractions in between
     order = [r for r, _, _ in okres]
     rng.shuffle(order)
@@ -191,7 +189,7 @@ def plan(rng, n, tier):
         steps += 1
         kind, r = queue.pop(0)
         x = rng.random()
-        if x < 0.3 and steps < 12:
+        if x < (0.15 if quick else 0.3) and steps < 12:
             I = rng.choice(ok) if rng.random() < 0.75 else rng.choice(bad)
             rid = call(0, I)
             if rid is not None:
@@ -204,7 +202,7 @@ def plan(rng, n, tier):
             ops.append({'op': 'mutate', 'rid': t, 'how': rng.choice(MUTATIONS)})
             n_mut += 1
         derive, oid = None, None
-        if n_derived < 2 and distinct.get(r, 0) >= 1 and rng.random() < 0.4:
+        if n_derived < max_derived and distinct.get(r, 0) >= 1 and rng.random() < 0.4:
             derive = rng.choice(['decoded', 'encoder'])
             oid = nxt['oid']
             nxt['oid'] += 1
@@ -218,9 +216,9 @@ def plan(rng, n, tier):
             sub = [rng.choice(ok2)]
             if rng.random() < 0.5:
                 sub.append(rng.choice(bad2))
-            if rng.random() < 0.6:
+            if rng.random() < 0.45:
                 sub.append(rng.choice(ok2))
-            if rng.random() < 0.3:
+            if rng.random() < 0.25:
                 sub.append(list(sub[0]))
             for J in sub:
                 rid = call(oid, J)
@@ -228,12 +226,12 @@ def plan(rng, n, tier):
                     distinct[rid], robj[rid] = len(set(J)), oid
                     queue.insert(rng.randrange(len(queue) + 1), ('encode', rid))
             if rng.random() < 0.4:
-                source(oid)
-        if encoded and rng.random() < 0.3:
+                source(oid, 'render' if rng.random() < 0.75 else 'reencode')
+        if encoded and rng.random() < 0.2:
             ops.append({'op': 'encode', 'rid': rng.choice(encoded), 'derive': None, 'oid': None})
             n_twice += 1
         if rng.random() < 0.25:
-            source(rng.choice(sorted(n_of)))
+            source(rng.choice(sorted(n_of)), 'render' if rng.random() < 0.7 else 'reencode')
     if not n_twice and encoded:
         ops.append({'op': 'encode', 'rid': rng.choice(encoded), 'derive': None, 'oid': None})
     if not n_mut and distinct:
@@ -249,12 +247,12 @@ def plan(rng, n, tier):
 
 
 # ---------------------------------------------------------------------------------------------
-def execute(st, m, fields, ops, reencodable=True):
+def execute(st, m, fields, ops, reencodable=True, reenc0=None):
     """Run a history on the message object m.  Returns dict(problems, requests, expect, stats).
     problems: list of (kind, text, extra, op index); requests: model requests; expect: how to compare their answers."""
     p = P()
     interner = p.Interner()
-    objs = {0: Obj(st, 0, m, fields, interner, 'decoded', reencodable=reencodable)}
+    objs = {0: Obj(st, 0, m, fields, interner, 'decoded', reencodable=reencodable, reenc0=reenc0)}
     results = {}
     problems = []
     stats = {'subset': 0, 'subset refused': 0, 'subset equal collection again': 0, 'subset of a subset': 0, 'encode': 0,
